@@ -57,6 +57,9 @@ def run(ctx):
     ctx.rule("T1", "every interconnect whose __init__ accepts timeout_cycles instantiates a *Timeout(<bus>, timeout_cycles) on "
                    "the `timeout_cycles is not None` path", min_sites=6)
     ctx.rule("T2", "the Timeout is constructed after the Decoder (later statements win)", min_sites=3)
+    ctx.rule("T6", "exactly one termination: while the watchdog answers a request (RESPOND) the request is not visible to the slaves any "
+                   "more (AXI / AXI-Lite: a handshake completed by the watchdog on the shared wires can be completed by the slave too)",
+             min_sites=4)
     ctx.rule("T3", "Timeout bodies: wait condition, forced termination with error data, RESPOND exits only on the response "
                    "handshake, error pulse, RESP_SLVERR = 0b10", min_sites=40)
     ctx.rule("T4", "WaitTimer: done = count == 0; decrement under wait & ~done; reload when not waiting; reset value t", min_sites=4)
@@ -130,6 +133,16 @@ def run(ctx):
             # RESPOND
             def drv(t):
                 return [a for a in fx.find(domain="comb", target=t) if a.state == st("RESPOND")]
+            # T6: the watchdog completes the request handshake on the very wires the slaves listen to; unless it also hides the
+            # request (valid) from them, a slave whose ready arrives while RESPOND is accepting takes the request too
+            req = ("aw", "w") if kind == "wr" else ("ar",)
+            forced = [c for c in req if any(a.v == f"master.{c}.valid" for a in drv(f"master.{c}.ready"))]
+            hidden = [c for c in req if any(a.t.endswith(f"{c}.valid") for a in fx.find(domain="comb") if a.state == st("RESPOND"))]
+            ok = bool(forced) and set(forced) <= set(hidden)
+            ctx.ob("T6", rel, cls, f"{kind}: RESPOND hides the request it answers from the slaves", ok,
+                   "" if ok else f"RESPOND forces {['master.%s.ready' % c for c in forced]} while master.{'/'.join(req)}.valid still reaches the "
+                                 f"slaves (channels masked: {hidden}): a slave that raises ready in the first RESPOND cycle accepts the request "
+                                 f"as well, the master receives two responses", (drv(f"master.{req[0]}.ready") or [w[0]])[0].line if (drv(f"master.{req[0]}.ready") or w) else 0)
             if kind == "wr":
                 obl = [("master.aw.ready", "master.aw.valid"), ("master.w.ready", "master.w.valid"), ("master.b.resp", "RESP_SLVERR")]
                 v = drv("master.b.valid")
